@@ -155,3 +155,15 @@ func fbDictWire(d pdf.Dict) string {
 	}
 	return wire(d)
 }
+
+// fbUnwireOne parses the wire form of a single object (unwireSeq expects an array).
+func fbUnwireOne(s string) (pdf.Object, error) {
+	a, err := unwireSeq("a" + s + "]")
+	if err != nil {
+		return nil, err
+	}
+	if len(a) != 1 {
+		return nil, errors.New("not a single object")
+	}
+	return a[0], nil
+}
